@@ -34,6 +34,12 @@ sub('include/photospline/detail/convolve.h', r'\bstride2\b', 'inner')
 sub('include/photospline/detail/convolve.h', r'\bq\b', 'kernel_degree')
 sub('include/photospline/detail/fitsio.h', r'\bhduname\b', 'extname')
 sub('include/photospline/splinetable.h', r'\bsnew\b', 'fresh')
+sub('src/fitter/glam.c', r'\bfinitediff\b', 'Dmat')
+sub('src/fitter/glam.c', r'\btmp2\b', 'factor')
+sub('src/fitter/glam.c', r'\bboxedbases\b', 'bb')
+sub('src/fitter/glam.c', r'\bpenalty_chunk\b', 'piece')
+sub('include/photospline/detail/fit.h', r'\bsidelen\b', 'side')
+sub('include/photospline/detail/fit.h', r'\bdummy_knots\b', 'kshim')
 sub('include/photospline/bspline.h', r'/\* Special case for constant splines \*/', '/* constant splines */')
 # comment + blank lines shift line numbers
 sub('include/photospline/splinetable.h', r'#include <algorithm>', '// a comment\n\n\n#include <algorithm>')
